@@ -81,6 +81,8 @@ type Case struct {
 	RelErrs  int64    `json:"reload_errors"`
 	Races    int      `json:"races"`
 	Detail   string   `json:"detail,omitempty"`
+	CrashKnd string   `json:"crash_kind,omitempty"` // first line naming a crash of the child process
+	CrashCgo []string `json:"crash_cgo,omitempty"`  // C functions that were executing when it crashed
 	RaceBld  bool     `json:"race_detector"`
 }
 
@@ -267,10 +269,10 @@ func runChild(sc Scenario, pjson string) {
 				lastChange = time.Now()
 				continue
 			}
-			if time.Since(lastChange) > 12*time.Second {
+			if time.Since(lastChange) > 40*time.Second {
 				buf := make([]byte, 1<<20)
 				n := runtime.Stack(buf, true)
-				fmt.Fprintf(os.Stderr, "WATCHDOG: no progress for 12s\n%s\n", buf[:n])
+				fmt.Fprintf(os.Stderr, "WATCHDOG: no progress for 40s\n%s\n", buf[:n])
 				out.Timeout = true
 				report()
 				os.Exit(3)
@@ -432,6 +434,8 @@ func runChild(sc Scenario, pjson string) {
 // ---------------------------------------------------------------- parent
 
 var accessRe = regexp.MustCompile(`^(Previous )?(atomic )?(read|write|Read|Write|Atomic read|Atomic write) at 0x[0-9a-f]+ by `)
+var cfuncRe = regexp.MustCompile(`_Cfunc_(\w+)\(`)
+var crashRe = regexp.MustCompile(`(?m)^(fatal error: .*|panic: .*|SIG[A-Z]+: .*|WATCHDOG.*)$`)
 var frameFileRe = regexp.MustCompile(`^\s+(\S+\.go):(\d+)( \+0x[0-9a-f]+)?$`)
 
 func relPath(file string) (string, bool) {
@@ -513,7 +517,7 @@ func runScenario(sc Scenario, pjson string, scratch string, idx int) (res []Case
 		return []Case{{Class: "scenario", Scenario: sc, Panics: 1, Detail: "cannot start child: " + err.Error(), RaceBld: raceEnabled}}
 	}
 	go func() { done <- cmd.Wait() }()
-	hard := time.Duration(sc.Millis)*time.Millisecond + 60*time.Second
+	hard := time.Duration(sc.Millis)*time.Millisecond + 120*time.Second
 	timedOut := false
 	var werr error
 	select {
@@ -570,6 +574,17 @@ func runScenario(sc Scenario, pjson string, scratch string, idx int) (res []Case
 			sum.Panics++
 		}
 		tail := stderr.String()
+		seenC := map[string]bool{}
+		for _, m := range cfuncRe.FindAllStringSubmatch(tail, -1) {
+			if !seenC[m[1]] {
+				seenC[m[1]] = true
+				sum.CrashCgo = append(sum.CrashCgo, m[1])
+			}
+		}
+		sort.Strings(sum.CrashCgo)
+		if m := crashRe.FindString(tail); m != "" {
+			sum.CrashKnd = m
+		}
 		// start at the line that names the crash
 		for _, mark := range []string{"fatal error:", "panic:", "SIGSEGV", "unexpected signal", "WATCHDOG", "SIGABRT", "signal "} {
 			if i := strings.Index(tail, mark); i >= 0 {
@@ -577,8 +592,12 @@ func runScenario(sc Scenario, pjson string, scratch string, idx int) (res []Case
 				break
 			}
 		}
-		if len(tail) > 5000 {
-			tail = tail[:4000] + "\n...\n" + tail[len(tail)-1000:]
+		lim := 5000
+		if v, err := strconv.Atoi(os.Getenv("C14_DETAIL_MAX")); err == nil && v > lim {
+			lim = v
+		}
+		if len(tail) > lim {
+			tail = tail[:lim-1000] + "\n...\n" + tail[len(tail)-1000:]
 		}
 		sum.Detail = fmt.Sprintf("child ended abnormally (%v): %s", werr, tail)
 	}
